@@ -138,14 +138,14 @@ Lemma switch_example :
   Cfg.run 4000 w_switch_example = Done [60; 61; 62; 64; 61; 64; 61; 62; 64; 60; 61; 62; 7; 3; 64]%Z false.
 Proof. vm_compute. auto. Qed.
 
-(** Non-vacuity of the theorem on switch: a well-formed program with a switch with a tag (case list, operator
-    expression as first case expression, empty default) and one without (init statement, break and continue
+(** Non-vacuity of the theorem on switch: a well-formed program with a switch with a tag (case list, fallthrough,
+    operator expression as first case expression, empty default) and one without (init statement, break and continue
     inside clauses, default last) in a loop. *)
 Definition w_switch_wf : program :=
   [SDefine x0 (ALit 3);
    SFor (Some (SDefine x3 (ALit 0))) (Some (BCmp Lt (AVar x3) (ALit 5))) (Some (SIncDec true x3))
      [SSwitch None (Some (ABin And (AVar x3) (ALit 3)))
-        [SCase (CInts [ALit 0; AVar x0]) [P 70] false;
+        [SCase (CInts [ALit 0; AVar x0]) [P 70] true;
          SCase (CInts [ABin Sub (AVar x0) (ALit 2)]) [P 71] false;
          SCase CDefault [] false];
       SSwitch (Some (SDefine x2 (ABin Rem (AVar x3) (ALit 4)))) None
@@ -157,8 +157,8 @@ Definition w_switch_wf : program :=
 
 Lemma switch_wf_inhabited :
   wf_program w_switch_wf = true /\
-  GoSem.run 1000 w_switch_wf = Done [70; 60; 64; 71; 61; 64; 70; 63; 64; 70; 60; 64]%Z false /\
-  Cfg.run 4000 w_switch_wf = Done [70; 60; 64; 71; 61; 64; 70; 63; 64; 70; 60; 64]%Z false.
+  GoSem.run 1000 w_switch_wf = Done [70; 71; 60; 64; 71; 61; 64; 70; 71; 63; 64; 70; 71; 60; 64]%Z false /\
+  Cfg.run 4000 w_switch_wf = Done [70; 71; 60; 64; 71; 61; 64; 70; 71; 63; 64; 70; 71; 60; 64]%Z false.
 Proof. vm_compute. auto. Qed.
 
 (** x0 := 3; switch { default: P 1; case x0 > 0: P 2; case true: }: the default clause is swapped with
